@@ -24,6 +24,7 @@ import (
 	"sort"
 	"strconv"
 	"strings"
+	"sync"
 
 	"github.com/pingcap/log"
 	tikverr "github.com/tikv/client-go/v2/error"
@@ -205,6 +206,86 @@ func (t *usTarget) BatchGet(keys [][]byte) ([][]byte, bool, map[string][]byte, e
 func (t *usTarget) Iter(lo, hi []byte) (unionstore.Iterator, error)        { return t.us.Iter(lo, hi) }
 func (t *usTarget) IterReverse(hi, lo []byte) (unionstore.Iterator, error) { return t.us.IterReverse(hi, lo) }
 func (t *usTarget) Close()                                                 {}
+
+// ---------------------------------------------------------------- pipelined buffer over a scripted flush function
+// The flush function of PipelinedMemDB is scripted: it waits until the program lets it complete, then copies the
+// flushed buffer (tombstones included) into `remote`, which is also what the buffer's batch getter answers from.
+type pipeTarget struct {
+	buf     *unionstore.PipelinedMemDB
+	snap    *memSnap
+	us      *unionstore.KVUnionStore
+	mu      sync.Mutex
+	remote  map[string][]byte
+	release chan struct{}
+	done    chan struct{}
+	pending bool
+	keys    [][]byte // every key the program mentions: the observation set
+}
+
+func newPipe(snap []KV, keys [][]byte) *pipeTarget {
+	t := &pipeTarget{snap: &memSnap{data: snap}, remote: map[string][]byte{}, release: make(chan struct{}, 4), done: make(chan struct{}, 4), keys: keys}
+	t.buf = unionstore.NewPipelinedMemDB(func(_ context.Context, ks [][]byte) (map[string]kv.ValueEntry, error) {
+		t.mu.Lock()
+		defer t.mu.Unlock()
+		m := make(map[string]kv.ValueEntry, len(ks))
+		for _, k := range ks {
+			if v, ok := t.remote[string(k)]; ok {
+				m[string(k)] = kv.NewValueEntry(v, 0)
+			}
+		}
+		return m, nil
+	}, func(_ uint64, db *unionstore.MemDB) error {
+		<-t.release
+		t.mu.Lock()
+		it, err := db.Iter(nil, nil)
+		if err == nil {
+			for ; it.Valid(); _ = it.Next() {
+				t.remote[string(it.Key())] = append([]byte{}, it.Value()...)
+			}
+		}
+		t.mu.Unlock()
+		t.done <- struct{}{}
+		return err
+	})
+	t.us = unionstore.NewUnionStore(t.buf, t.snap)
+	return t
+}
+func (t *pipeTarget) complete() {
+	if t.pending {
+		t.release <- struct{}{}
+		<-t.done
+		t.pending = false
+	}
+}
+func (t *pipeTarget) Buf() unionstore.MemBuffer { return t.buf }
+func (t *pipeTarget) Get(k []byte) ([]byte, bool, error) {
+	v, err := t.us.Get(context.Background(), k)
+	if tikverr.IsErrNotFound(err) {
+		return nil, false, nil
+	}
+	if err != nil {
+		return nil, false, err
+	}
+	return v.Value, true, nil
+}
+func (t *pipeTarget) BatchGet(keys [][]byte) ([][]byte, bool, map[string][]byte, error) {
+	t.snap.handed = nil
+	m, err := transaction.NewBufferBatchGetter(t.buf, t.snap).BatchGet(context.Background(), keys)
+	if err != nil {
+		return nil, true, nil, err
+	}
+	r := map[string][]byte{}
+	for k, v := range m {
+		r[k] = v.Value
+	}
+	return t.snap.handed, true, r, nil
+}
+func (t *pipeTarget) Iter(lo, hi []byte) (unionstore.Iterator, error)        { return t.us.Iter(lo, hi) }
+func (t *pipeTarget) IterReverse(hi, lo []byte) (unionstore.Iterator, error) { return t.us.IterReverse(hi, lo) }
+func (t *pipeTarget) Close() {
+	t.complete()
+	_ = t.buf.FlushWait()
+}
 
 // real transaction over the mock store
 var theStore *tikv.KVStore
@@ -638,6 +719,19 @@ func protect(f func()) (pan string) {
 }
 
 func fullObs(t target) string {
+	if pt, ok := t.(*pipeTarget); ok {
+		var sb strings.Builder
+		for _, k := range pt.keys {
+			var v []byte
+			var found bool
+			var err error
+			if p := protect(func() { v, found, err = pt.Get(k) }); p != "" || err != nil {
+				sb.WriteString("!")
+			}
+			fmt.Fprintf(&sb, "%x=%v:%x,", k, found, v)
+		}
+		return sb.String()
+	}
 	var a, b []KV
 	var ea, eb string
 	if p := protect(func() { a, ea = drain(t.Iter(nil, nil)) }); p != "" {
@@ -658,9 +752,31 @@ func execProgram(id int, p *Program, emit func(string)) (*failure, bool) {
 	}
 	sort.Slice(snap, func(i, j int) bool { return bytes.Compare(snap[i].K, snap[j].K) < 0 })
 	var t target
-	if p.Target == "txn" {
+	switch p.Target {
+	case "txn":
 		t = newTxn(snap)
-	} else {
+	case "pipe":
+		seen := map[string]bool{}
+		var keys [][]byte
+		add := func(h string) {
+			if !seen[h] {
+				seen[h] = true
+				keys = append(keys, unhx(h))
+			}
+		}
+		for _, e := range p.Snap {
+			add(e[0])
+		}
+		for _, o := range p.Ops {
+			if o.Op == "set" || o.Op == "del" || o.Op == "get" {
+				add(o.K)
+			}
+			for _, k := range o.Keys {
+				add(k)
+			}
+		}
+		t = newPipe(snap, keys)
+	default:
 		t = newUS(p.Target, snap)
 	}
 	defer t.Close()
@@ -913,6 +1029,62 @@ func execProgram(id int, p *Program, emit func(string)) (*failure, bool) {
 			want := ref.list(lo, hi, rev)
 			if !oracle("iter=overlay", good && kvsString(want) == kvsString(l)) {
 				setFail("iter=overlay", idx, "got "+res+" want "+kvsString(want))
+			}
+		case "flush", "fdone", "fwait":
+			pt, isPipe := t.(*pipeTarget)
+			if !isPipe {
+				continue
+			}
+			res := "ok"
+			var pan string
+			switch o.Op {
+			case "flush":
+				if tr.depth() == 0 {
+					pt.complete() // Flush waits for the previous flush function
+				}
+				var ferr error
+				var flushed bool
+				pan = protect(func() { flushed, ferr = pt.buf.Flush(true) })
+				if ferr != nil || !flushed {
+					res = "err"
+				} else {
+					pt.pending = true
+					tr.log, tr.lastCp = nil, 0 // a fresh mutable buffer
+				}
+				if !oracle("flush-accepted-iff-no-staging-level", pan == "" && (res == "ok") == (tr.depth() == 0)) {
+					setFail("flush-accepted-iff-no-staging-level", idx, res+pan)
+				}
+			case "fdone":
+				pt.complete()
+			case "fwait":
+				pt.complete()
+				var ferr error
+				pan = protect(func() { ferr = pt.buf.FlushWait() })
+				if ferr != nil {
+					res = "err"
+				}
+			}
+			if pan != "" {
+				res = "panic"
+			}
+			line(idx, o.Op, nil, res)
+			// flushing never changes what the transaction reads
+			if want := ref.list(nil, nil, false); true {
+				okV := true
+				wm := map[string][]byte{}
+				for _, e := range want {
+					wm[string(e.K)] = e.V
+				}
+				for _, k := range pt.keys {
+					v, found, err := pt.Get(k)
+					wv, wfound := wm[string(k)]
+					if err != nil || found != wfound || !bytes.Equal(v, wv) {
+						okV = false
+					}
+				}
+				if !oracle("flush-invisible-to-reads", okV) {
+					setFail("flush-invisible-to-reads", idx, fullObs(t))
+				}
 			}
 		case "split":
 			// a region split under the running transaction (real KVTxn tier only); not an operation of the model
@@ -1205,7 +1377,7 @@ func execProgram(id int, p *Program, emit func(string)) (*failure, bool) {
 			}
 			live := h == tr.depth() && h > 0
 			before := ""
-			if live && o.Op == "release" {
+			if !live || o.Op == "release" {
 				before = fullObs(t)
 			}
 			pan := protect(func() {
@@ -1248,7 +1420,7 @@ func execProgram(id int, p *Program, emit func(string)) (*failure, bool) {
 				stageObs = stageObs[:n]
 			} else if pan == "" {
 				// no-op calls must not change the view
-				if want := ref.list(nil, nil, false); !oracle("noop-savepoint-call", strings.HasPrefix(fullObs(t), kvsString(want)+"|")) {
+				if !oracle("noop-savepoint-call", fullObs(t) == before) {
 					setFail("noop-savepoint-call", idx, "view changed")
 				}
 			}
@@ -1625,6 +1797,68 @@ func genProgram(r *rand.Rand, targetKind string, nops int, big bool) *Program {
 	return p
 }
 
+// programs for the pipelined buffer: writes, point / batch reads, staging levels and a scripted flush schedule
+func genPipeProgram(r *rand.Rand, nops int) *Program {
+	p := &Program{Target: "pipe"}
+	pool := keyPool(r, false)
+	for _, k := range pool {
+		if r.Intn(2) == 0 {
+			p.Snap = append(p.Snap, [2]string{hx(k), hx(genValue(r, false))})
+		}
+	}
+	pick := func() []byte { return pool[r.Intn(len(pool))] }
+	depth := 0
+	for len(p.Ops) < nops {
+		x := r.Intn(100)
+		switch {
+		case x < 20:
+			v := genValue(r, false)
+			if r.Intn(40) == 0 {
+				v = nil
+			}
+			p.Ops = append(p.Ops, Op{Op: "set", K: hx(pick()), V: hx(v)})
+		case x < 34:
+			p.Ops = append(p.Ops, Op{Op: "del", K: hx(pick())})
+		case x < 52:
+			p.Ops = append(p.Ops, Op{Op: "get", K: hx(pick())})
+		case x < 66:
+			n := 1 + r.Intn(4)
+			var ks []string
+			for i := 0; i < n; i++ {
+				ks = append(ks, hx(pick()))
+			}
+			if r.Intn(3) == 0 {
+				ks = append(ks, ks[r.Intn(len(ks))])
+			}
+			p.Ops = append(p.Ops, Op{Op: "bget", Keys: ks})
+		case x < 72:
+			if depth < 3 {
+				depth++
+				p.Ops = append(p.Ops, Op{Op: "staging"})
+			}
+		case x < 77:
+			if depth > 0 {
+				depth--
+				p.Ops = append(p.Ops, Op{Op: "release", H: -1})
+			}
+		case x < 82:
+			if depth > 0 {
+				depth--
+				p.Ops = append(p.Ops, Op{Op: "cleanup", H: -1})
+			}
+		case x < 90:
+			if depth == 0 || r.Intn(6) == 0 {
+				p.Ops = append(p.Ops, Op{Op: "flush"})
+			}
+		case x < 95:
+			p.Ops = append(p.Ops, Op{Op: "fdone"})
+		default:
+			p.Ops = append(p.Ops, Op{Op: "fwait"})
+		}
+	}
+	return p
+}
+
 // ---------------------------------------------------------------- main
 func transcript(p *Program) string {
 	var sb strings.Builder
@@ -1753,6 +1987,15 @@ func main() {
 	for i := 0; i < nTxn; i++ {
 		runOne(genProgram(r, "txn", nops*3/4, i%5 == 0))
 	}
+	nPipe := nTxn * 2
+	for i := 0; i < nPipe; i++ {
+		runOne(genPipeProgram(r, nops))
+	}
+	// directed: a flushed deletion must stay hidden after a batch get has cached it
+	runOne(&Program{Target: "pipe", Snap: [][2]string{{"61", "78"}, {"62", "79"}}, Ops: []Op{
+		{Op: "del", K: "61"}, {Op: "set", K: "62", V: "7a"}, {Op: "flush"}, {Op: "get", K: "61"}, {Op: "fdone"}, {Op: "set", K: "63", V: "7a"},
+		{Op: "flush"}, {Op: "fdone"}, {Op: "fwait"}, {Op: "get", K: "61"}, {Op: "bget", Keys: []string{"61", "62", "64"}}, {Op: "get", K: "61"},
+		{Op: "get", K: "62"}, {Op: "get", K: "64"}, {Op: "bget", Keys: []string{"61", "61"}}}})
 	gstats["failing-programs"] = nfail
 	finish(out)
 }
